@@ -361,6 +361,23 @@ class PoolExec:
         def dv(a):      # value behind a reference argument
             return self.deref(S, a) if a.kind == "ref" else a
 
+        m = re.search(r"::(saturating_sub|saturating_add|wrapping_add|wrapping_sub|checked_add|checked_sub|min|max)$", c)
+        if m and len(args) == 2 and all(dv(a).kind == "int" for a in args):
+            a, b = dv(args[0]).v, dv(args[1]).v
+            op = m.group(1)
+            if op == "saturating_sub":
+                return [(S, V("int", v=z3.If(a >= b, a - b, 0)))]
+            if op == "saturating_add":
+                return [(S, V("int", v=z3.If(a + b >= USIZE, USIZE - 1, a + b)))]
+            if op == "wrapping_add":
+                return [(S, V("int", v=z3.If(a + b >= USIZE, a + b - USIZE, a + b)))]
+            if op == "wrapping_sub":
+                return [(S, V("int", v=z3.If(a >= b, a - b, a - b + USIZE)))]
+            if op in ("checked_add", "checked_sub"):
+                raw = a + b if op == "checked_add" else a - b
+                okc = z3.And(raw >= 0, raw < USIZE)
+                return [(S, V("enum", ty="Option", disc=z3.If(okc, 1, 0), payload={"Some": [V("int", v=raw)]}))]
+            return [(S, V("int", v=z3.If(a <= b, a, b) if op == "min" else z3.If(a >= b, a, b)))]
         if re.search(r"ProofPool::len$", c):
             S.events.append(("read", "total"))
             return [(S, V("int", v=S.st["total"]))]
